@@ -19,7 +19,7 @@ theorem Spec.weaken {α : Type} {n B : Nat} {p : PM α} {W W' : α → Prop} (h 
     Spec n B p W' := fun s hs => wp_mono (h s hs) (fun a _ ⟨h1, h2⟩ => ⟨h1, hw a h2⟩) (fun _ h => h)
 
 /-- Use the specification of a sub-parser inside a `wp` goal. -/
-theorem wp_of_spec {α : Type} {n m B : Nat} {p : PM α} {W : α → Prop} {Q : α → PState → Prop} {s : PState}
+theorem wp_of_spec {α : Type} {n m B : Nat} {p : PM α} {W : α → Prop} {Q : α → ParseSt → Prop} {s : ParseSt}
     (h : Spec m B p W) (hs : Inv m B s) (hmn : m ≤ n)
     (hQ : ∀ a s', Inv n B s' → W a → Q a s') :
     wp p Q (fun s' => phi s' ≤ B) False s :=
